@@ -28,6 +28,10 @@ class Refuse(Exception):
         Exception.__init__(self, 'line %s: %s' % (line, msg))
 
 
+def ast_hash(node):
+    return hashlib.sha256(ast.dump(node).encode()).hexdigest()[:16]
+
+
 def coq_text(s):
     return '[' + '; '.join('%d' % ord(c) for c in s) + ']'
 
@@ -452,6 +456,13 @@ def translate(sig, repo):
             raise Refuse(mod, 'the module does not import %s as %s' % (origin, name))
     if len(fns) != 1:
         raise Refuse(mod, 'function %s not found exactly once' % sig['function'])
+    for pin in sig.get('pinned', []):       # relied on, not translated: identified by the hash of the AST
+        with open(os.path.join(repo, pin['source']), 'rb') as fh:
+            pm = ast.parse(fh.read().decode('utf-8'))
+        found = [m for c in pm.body if isinstance(c, ast.ClassDef) and c.name == pin['class']
+                 for m in c.body if isinstance(m, ast.FunctionDef) and m.name == pin['method']]
+        if len(found) != 1 or ast_hash(found[0]) != pin['hash']:
+            raise Refuse(mod, 'pinned %s %s.%s is missing or changed' % (pin['source'], pin['class'], pin['method']))
     text = Fn(sig, fns[0]).emit()
     head = ('(* GENERATED by tools/py2v_uc from %s (%s) - do not edit; regenerated on every check. *)\n'
             'From Coq Require Import List Arith ZArith Bool.\n'
